@@ -704,6 +704,10 @@ class ExprMixin:
                 if cv is not None:
                     return cv
         base = self.ev(node.value, st)
+        if isinstance(base, VFunc) and base.desc.startswith("enumclass:"):
+            e = T.ENUMS[base.desc[10:]]
+            if node.attr in e.members:
+                return VEnum(e, sort_info(e).consts[node.attr])
         if isinstance(base, VOpt):
             self.oblige(st, "safety", node, z3.Not(base.isnone), "attribute of None")
             base = base.v
